@@ -288,7 +288,7 @@ Proof.
   - destruct (eval fl t cx base) as [bv|] eqn:Hb; cbn [bind] in H; [|discriminate].
     destruct bv as [S0|s|x|bb].
     + refine (step_body_sorted fl t S0 ds ax nt _ l Hwf (IHb _ _ Hb) _ H).
-      intros rv l0 l' Hs Hl. eapply apply_preds_sorted; eauto.
+      intros rv l0 l' Hs Hl. eapply apply_preds_sorted; [exact Hl|exact Hs].
     + discriminate.
     + discriminate.
     + discriminate.
